@@ -8,8 +8,8 @@
    examples and the correspondence check. *)
 From Coq Require Import ZArith String List Bool Lia.
 From Verif Require Import C17.Model C17.Spec C17.Mputil C17.Proofs C17.ProofsOpts C17.ProofsGeom
-     C17.ProofsRoute C17.ProofsJoin C17.ProofsArea C17.ProofsCarry C17.ProofsGeoEq C17.ProofsDup C17.ProofsAbsorb C17.ProofsGeoBuild C17.ProofsGeoScene C17.Examples C17.ProofsWitness.
-From Verif Require C18.Model C18.Spec C18.Proofs C18.Api Geo.Model Geo.Rings Geo.Orient Geo.Build Geo.Collect Properties.C16.
+     C17.ProofsRoute C17.ProofsJoin C17.ProofsArea C17.ProofsCarry C17.ProofsGeoEq C17.ProofsDup C17.ProofsAbsorb C17.ProofsOracle C17.ProofsGeoBuild C17.ProofsGeoScene C17.Examples C17.ProofsWitness.
+From Verif Require C18.Model C18.Spec C18.Proofs C18.Api C18.Tags Geo.Model Geo.Rings Geo.Orient Geo.Build Geo.Collect Properties.C16.
 From VerifGen Require Import GenTags.
 Import ListNotations.
 Open Scope Z_scope.
@@ -473,6 +473,40 @@ Theorem C17_incl_keeps_holes_refuted :
     rings_sub (geom_rings (f_geom f)) (geom_rings (f_geom f')) = true.
 Proof. exact incl_keeps_holes_refuted. Qed.
 Print Assumptions C17_incl_keeps_holes_refuted.
+
+(* ---------------------------------------------------------------------------------------
+   5b. The judgement-2 oracle says what the theorems say, and the osm-package methods the model
+      reads are C18's models.  (The answers of Tags.AnyInteresting, Way.Polygon and
+      Relation.Polygon on every element, and the harness's known-finding class, are compared
+      with these functions inside Coq on every case: judgement code 3.) *)
+Theorem C17_has_interesting_is_AnyInteresting : forall ts,
+  has_interesting ts None = C18.Tags.any_interesting uninteresting_tags ts.
+Proof. exact has_interesting_any. Qed.
+Print Assumptions C17_has_interesting_is_AnyInteresting.
+
+Theorem C17_is_mp_is_Relation_Polygon : forall r,
+  is_mp r = relation_area r /\ relation_area r = C18.Api.relation_is_area (r_tags r).
+Proof. exact is_mp_is_relation_polygon. Qed.
+Print Assumptions C17_is_mp_is_Relation_Polygon.
+
+Theorem C17_oracle_keys_unique_iff : forall fs, keys_unique fs = true <-> NoDup (map fkey fs).
+Proof. exact keys_unique_iff. Qed.
+Print Assumptions C17_oracle_keys_unique_iff.
+
+Theorem C17_oracle_node_rule_iff : forall d n, spec_node_rule d n = true <-> node_rule d n.
+Proof. exact spec_node_rule_iff. Qed.
+Print Assumptions C17_oracle_node_rule_iff.
+
+(* the three completeness clauses of the oracle (every node satisfying the rule, every way that no
+   relation absorbs, every route relation with a member line has a feature) hold of the model's
+   output for all data and options: they cannot raise a false alarm, and — being stated on the
+   input alone — they catch a conversion that silently drops features *)
+Theorem C17_oracle_completeness_sound : forall join ring_of, ring_single ring_of -> forall o d,
+  nodes_complete d (convert join ring_of o d) = true /\
+  ways_complete d (convert join ring_of o d) = true /\
+  routes_complete d (convert join ring_of o d) = true.
+Proof. exact oracle_completeness_sound. Qed.
+Print Assumptions C17_oracle_completeness_sound.
 
 (* ---------------------------------------------------------------------------------------
    6. Determinism ("conversion of equal input gives equal output") and input immutability are
